@@ -88,7 +88,12 @@ pub struct AuxPowExtension {
 /// Get block reward for given height
 #[inline]
 pub const fn get_base_reward(block_height: u64) -> u64 {
-    (50 * 100000000) >> (block_height / 210000)
+    let halvings = block_height / 210000;
+    // a shift by 64 or more overflows (panic in debug builds, wrap-around to 50 coins in release builds)
+    if halvings >= 64 {
+        return 0;
+    }
+    (50 * 100000000) >> halvings
 }
 
 #[cfg(test)]
